@@ -16,7 +16,8 @@ RULE = (
     "(revive), values h5py refuses (the failed assignment must change nothing), refused attribute writes after a delete, "
     "in-place edits of array datasets (copy_into_patch), 0-dim / string-array / opaque-datetime / enum / non-UTF-8 values. "
     "Fixed matrices (shard invalid-keys): keys outside the alphabet x every entry point, forms of the deletion-marker "
-    "value (refused or stored visibly), a lazily allocated 8 TiB dataset next to ordinary data. Non-trivial = a node recreated in a patch is later touched "
+    "value (refused or stored visibly), a lazily allocated 8 TiB dataset next to ordinary data, a group moved below itself "
+    "(refused without effect), copy(name=None). Non-trivial = a node recreated in a patch is later touched "
     "in a later container (>=3 containers involved) or a delete/recreate happens in container index >=2; "
     "distinct by (placement, container count, bound op kinds and paths)"
 )
